@@ -91,8 +91,11 @@ func CloneTo[T any](maybeSelf MaybeDef[T], dest T) MaybeDef[T] {
 		y := reflect.New(starX.Type())
 		starY := y.Elem()
 		starY.Set(starX)
-		reflect.ValueOf(dest).Elem().Set(y.Elem())
-		return JustGenerics(dest)
+		if d := reflect.ValueOf(dest); d.Kind() == reflect.Ptr && !d.IsNil() {
+			d.Elem().Set(y.Elem())
+			return JustGenerics(dest)
+		}
+		return JustGenerics(y.Interface().(T))
 	}
 	dest = x.Interface().(T)
 
